@@ -2203,6 +2203,179 @@ def nontrivial_S(case):
 
 
 # ---------------------------------------------------------------------------
+# family M: the key chains inside Pmono / PmonoArtic voices
+# ---------------------------------------------------------------------------
+#
+# A voice of 3 events whose events define one pitch-chain entry point (degree
+# / note / midinote / freq, a different value per event) together with
+# modifiers (constant, or changing per event with the default value in the
+# first event), a scale, and the amplitude chain.  Every event of the
+# timeline must produce exactly one message at its time - the /s_new of a
+# voice start or ordinary note, the /n_set of a later event of the voice -
+# whose control values are the documented chain of THAT event's keys, exactly
+# as for a note event (same note_spec, same don't-cares).  Messages are paired
+# with events by time and kind (not by a pitch tag: the modifiers move the
+# pitch).
+
+M_INSTR = I_FAG
+M_DURS = [0.5, 0.25, 1]
+M_ENTRY = {'degree': [0, 2, -1], 'note': [0, 4, 7.0], 'midinote': [60, 64.5, 57],
+           'freq': [220.0, 330.0, 440.0]}
+M_MODS_Q = [{}, {'harmonic': 2}, {'detune': 3}, {'ctranspose': 1},
+            {'mtranspose': 1}, {'gtranspose': 1}, {'root': 2}, {'octave': 4},
+            {'harmonic': 0.5, 'detune': -1.5},
+            {'ctranspose': -12, 'harmonic': 2},
+            {'mtranspose': -2, 'octave': 6.0, 'root': -1},
+            {'gtranspose': 0.5, 'detune': 3, 'octave': 4},
+            # changing per event, the first event has the default value
+            {'harmonic': ['Pseq', [1, 2, 0.5], 1]},
+            {'detune': ['Pseq', [0, 3, -1.5], 1]},
+            {'ctranspose': ['Pseq', [0, 1, -12], 1]},
+            {'mtranspose': ['Pseq', [0, 1, -2], 1],
+             'octave': ['Pseq', [5, 4, 6.0], 1]},
+            {'gtranspose': ['Pseq', [0, 1, 0.5], 1],
+             'root': ['Pseq', [0, 2, -1], 1]}]
+M_MODS_T = M_MODS_Q + [
+    {'harmonic': 0.5}, {'detune': -1.5}, {'ctranspose': -12},
+    {'mtranspose': -2}, {'gtranspose': 0.5}, {'root': -1}, {'octave': 6.0},
+    {'harmonic': 2, 'detune': 3, 'ctranspose': 1, 'mtranspose': 1,
+     'gtranspose': 1, 'root': 2, 'octave': 4},
+    {'harmonic': ['Pseq', [2, 1, 2], 1], 'detune': ['Pseq', [3, 0, 0], 1]}]
+M_SCALES_Q = [None, 'minorpent', 'chromatic', 'whole_rng']
+M_SCALES_T = [None, 'major_x', 'minorpent', 'chromatic', 'chromatic_cm',
+              'major_et12', 'whole_rng']
+M_AMPS = [{}, {'amp': ['Pseq', [0.25, 0.5, 0], 1]},
+          {'db': ['Pseq', [-6, -12, 0], 1]},
+          {'velocity': ['Pseq', [64, 100, 127], 1]}]
+M_ARTIC = [None, 1, ['Pseq', [1, 0.5, 1], 1], 0.5]     # legato of PmonoArtic
+
+
+def gen_M(tier):
+    q = tier == 'quick'
+    mods = M_MODS_Q if q else M_MODS_T
+    n = 0
+    for entry in MAINS:
+        scales = (M_SCALES_Q if q else M_SCALES_T) \
+            if entry in ('degree', 'note') else [None]
+        for md in mods:
+            for sc in scales:
+                for am in M_AMPS:
+                    for ar in M_ARTIC:
+                        d = {entry: ['Pseq', M_ENTRY[entry], 1],
+                             'dur': ['Pseq', M_DURS, 1]}
+                        d.update(md)
+                        d.update(am)
+                        if sc is not None:
+                            d['scale'] = sc
+                        pat = ['Pmono', instr_name(M_INSTR), d]
+                        if ar is not None:
+                            d['legato'] = ar
+                            pat.append({'articulate': True})
+                        n += 1
+                        yield {'fam': 'M', 'pat': pat,
+                               'at': [None, 0.75][n % 2], 'lat': 0.25}
+
+
+def m_messages(score):
+    """-> (messages [{'t', 'kind': 'snew'|'nset', 'id', 'name', 'pairs'}],
+    gate-offs by node id, problems)"""
+    snew, nset, nfree, other = parse_score(score)
+    msgs, probs, gateoffs = [], [], {}
+    for o in other:
+        probs.append(('unexpected-message', None, o, ''))
+    for x in snew:
+        pairs, prob = pairs_of(x['rest'])
+        if prob:
+            probs.append(('snew-malformed', None, x['rest'], prob))
+        msgs.append({'t': x['t'], 'kind': 'snew', 'id': x['id'],
+                     'name': x['name'], 'pairs': pairs or {},
+                     'action': x['action'], 'group': x['group']})
+    for x in nset:
+        if x['rest'] in (['gate', 0], ['gate', 0.0]):
+            gateoffs.setdefault(x['id'], []).append(x['t'])
+            continue
+        pairs, prob = pairs_of(x['rest'])
+        if prob:
+            probs.append(('nset-malformed', None, x['rest'], prob))
+        msgs.append({'t': x['t'], 'kind': 'nset', 'id': x['id'],
+                     'pairs': pairs or {}})
+    return msgs, gateoffs, probs
+
+
+def check_M(case, info):
+    pat, at, lat = case['pat'], case['at'], case['lat']
+    feat = '@artic' if pat_opts(pat, 3).get('articulate') else ''
+    r = run_S(pat, at, 'sys', lat)
+    info['outcome'] = renumber(r['score']) if r['score'] else r['exc']
+    out = [(f'M:{d[0]}{feat}',) + d[1:] for d in desc_disc(r, '')]
+    if r['score'] is None or r['log']:
+        return out + [(f'M:play-raises{feat}', 'one message per event',
+                       r['exc'] or r['log'], '')]
+    evs, _ = ref.denote(pat)
+    name = pat[1]
+    ctrls = ctrls_of(name)
+    start = at or 0
+    msgs, gateoffs, probs = m_messages(r['score'])
+    dis = list(probs)
+    used, voice_ids = set(), {}
+    for e in evs:
+        if e['rest']:
+            continue
+        t = start + e['t'] + lat
+        spec = ref.note_spec(e['ev'], ctrls)
+        later = e['mono'] is not None and e['mono'][1] > 0
+        kind = 'nset' if later else 'snew'
+        pre = 'mono-set' if later else 'snew'
+        cands = [i for i, m in enumerate(msgs)
+                 if i not in used and m['kind'] == kind
+                 and ref.close(m['t'], t)]
+        if not cands:
+            dis.append((f'{pre}-missing', [t, kind, spec['required']],
+                        [[m['t'], m['kind'], m['pairs']] for m in msgs],
+                        f'event {e["ev"]} of the voice has no '
+                        f'{"/n_set" if later else "/s_new"} at its time'))
+            continue
+        m = msgs[cands[0]]
+        used.add(cands[0])
+        if kind == 'snew':
+            if m['name'] != name:
+                dis.append(('snew-name', name, m['name'], ''))
+            if m['action'] != 0 or m['group'] != 1:
+                dis.append(('snew-target', [0, 1],
+                            [m['action'], m['group']], ''))
+            if e['mono'] is not None:
+                voice_ids[e['mono'][0]] = m['id']
+            elif spec['has_gate']:
+                want = t + spec['sustain']
+                got = gateoffs.get(m['id'], [])
+                if len(got) != 1 or not ref.close(got[0], want):
+                    dis.append(('gateoff-time', want, got,
+                                'ordinary note of a PmonoArtic'))
+        elif voice_ids.get(e['mono'][0]) != m['id']:
+            dis.append(('mono-set-node', voice_ids.get(e['mono'][0]),
+                        m['id'], 'the /n_set goes to another node than the '
+                        'voice\'s /s_new created'))
+        sub = []
+        cmp_pairs(pre, spec, m['pairs'], ctrls, sub)
+        for d in sub:
+            dis.append((d[0], d[1], d[2],
+                        (d[3] + f' | event keys {core.canon(e["ev"])}')[:600]))
+    for i, m in enumerate(msgs):
+        if i not in used:
+            dis.append(('message-extra', None, [m['t'], m['kind'],
+                                                m['pairs']],
+                        'a message no event of the timeline accounts for'))
+    return out + [(f'M:{d[0]}{feat}', d[1], d[2], d[3]) for d in dis]
+
+
+def nontrivial_M(case):
+    """A later event of a voice carries a pitch modifier, a scale or an
+    amplitude chain key."""
+    d = case['pat'][2]
+    return any(k in d for k in list(MODS) + ['scale', 'db', 'velocity'])
+
+
+# ---------------------------------------------------------------------------
 # standalone reproducers
 # ---------------------------------------------------------------------------
 
@@ -2434,6 +2607,8 @@ def standalone(case):
             d = dict(case['change'], dur=['Pseq', [R_PROTO_DUR], 1])
             plays.append(f'Pbind({src_dict(d, True)}).play(proto=e)')
     else:
+        if fam == 'M':
+            case = dict(case, clock='sys')
         at, lat = case['at'], case['lat']
         for name in sorted(instruments_in(case['pat'], set())):
             lines.append(f'instrument({name!r}, {ctrls_of(name)!r})')
@@ -2502,6 +2677,8 @@ def check_case(case, info=None):
         dis = check_R(case, info)
     elif fam == 'D':
         dis = check_D(case, info)
+    elif fam == 'M':
+        dis = check_M(case, info)
     else:
         raise core.HarnessError(f'bad family {fam}')
     seen, out = set(), []
@@ -2514,7 +2691,8 @@ def check_case(case, info=None):
 
 def is_nontrivial(case):
     return {'K': nontrivial_K, 'P': nontrivial_P, 'S': nontrivial_S,
-            'R': nontrivial_R, 'D': nontrivial_D}[case['fam']](case)
+            'R': nontrivial_R, 'D': nontrivial_D,
+            'M': nontrivial_M}[case['fam']](case)
 
 
 def replay(job):
@@ -2562,6 +2740,8 @@ def part_cases(job):
         return itertools.islice(gen_R(tier), job['shard'], None, job['of'])
     if part == 'D':
         return itertools.islice(gen_D(tier), job['shard'], None, job['of'])
+    if part == 'M':
+        return itertools.islice(gen_M(tier), job['shard'], None, job['of'])
     raise core.HarnessError(f'bad part {part}')
 
 
@@ -2574,6 +2754,7 @@ def jobs(tier):
     js += [{'part': 'S', 'shard': i, 'of': 32} for i in range(32)]
     js += [{'part': 'R', 'shard': i, 'of': 4} for i in range(4)]
     js += [{'part': 'D', 'shard': i, 'of': 16} for i in range(16)]
+    js += [{'part': 'M', 'shard': i, 'of': 16} for i in range(16)]
     for j in js:
         j['tier'] = tier
     return js
